@@ -57,6 +57,16 @@ def parseEv (w : World) (ws : List String) : Option Ev :=
     match i.toNat?, parseKind kind, size.toNat? with
     | some i, some k, some sz => if i = w.srcs.length then some (.src k sz) else none
     | _, _, _ => none
+  | ["alias", j, i] =>
+    -- a second logical source on the SAME endpoint as source `i` (several concurrent reads on one fd);
+    -- for the pool it is an independent source of the same kind
+    match j.toNat?, i.toNat? with
+    | some j, some i =>
+      match w.srcs[i]? with
+      | some s => if j = w.srcs.length && s.kind != .file then some (.src s.kind 0) else none
+      | none => none
+    | _, _ => none
+  | ["tcancel", i] => i.toNat?.map .tcancel
   | ["write", i, k] =>
     match i.toNat?, k.toNat? with
     | some i, some k => some (.write i k)
